@@ -37,6 +37,19 @@ def bounds(tier):
             'solvers': ['MD', 'RDA', 'IG'], 'zeros': ['none', 'one cell'], 'inputs': ['noisy', 'uniform-answers']}
 
 
+# 4-attribute structures whose junction tree branches (the depth-first clique order backtracks)
+STRUCTS4 = [
+    (('A', 'B', 'C'), ('A', 'D')),
+    (('A', 'B'), ('A', 'D'), ('B', 'C')),
+    (('A', 'B'), ('A', 'C'), ('A', 'D')),
+    (('A', 'B'), ('B', 'C'), ('C', 'D')),
+    (('A', 'B'), ('B', 'C'), ('C', 'D'), ('D', 'A')),
+    (('B', 'A'), ('D', 'B'), ('C', 'B'), ('A',)),
+    (('A', 'B', 'C'), ('B', 'C', 'D')),
+    (('A', 'C'), ('B', 'D')),
+]
+
+
 def all_structs():
     return [()] + M.structures(M.MENU3, 3)
 
@@ -44,7 +57,7 @@ def all_structs():
 def jobs(tier, seed):
     st = all_structs()
     idx = range(len(st)) if tier == 'thorough' else sorted(set([0, 1, 2] + list(range(3, len(st), 5))))
-    return [{'si': si, 'seed': seed} for si in idx] + [{'witness': 'F13', 'seed': seed}]
+    return [{'si': si, 'seed': seed} for si in idx] + [{'witness': 'F13', 'seed': seed}] + [{'si': 1000 + i, 'seed': seed} for i in range(len(STRUCTS4))]
 
 
 def coherence_failures(model, attrs, sizes, maxlen=2, tol_r=1e-7, tol_a=1e-9):
@@ -96,7 +109,10 @@ def run_one(si, total, engine, iters, zero, kind, seed):
     from mbi import Domain, FactoredInference
     M.deterministic_eigsh()
     attrs, sizes = M.ATTRS3, M.SIZES3
-    struct = all_structs()[si]
+    if si >= 1000:
+        attrs, sizes, struct = M.ATTRS4, M.SIZES4, STRUCTS4[si - 1000]
+    else:
+        struct = all_structs()[si]
     prob = M.Problem(attrs, sizes, struct, si, 'uniform' if kind == 'uniform' else 'pos', seed,
                      total=total if total is not None else 41.0, noise_mult=0.0 if kind == 'uniform' else 2.0,
                      kinds=['dense', 'none', 'sparse', 'linop'] if kind == 'uniform' else None)
